@@ -1167,7 +1167,7 @@ example : SysC.RunP (SysC.DrainHyp ⟨c02A.snd_nxt, c02A.conv, 0, 0, 0⟩ 300 10
     (SysC.netRun (Sys.init c02A c02A 0 1000) c02DrainPre) c02DrainEvs :=
   SysC.runChk_sound ⟨c02A.snd_nxt, c02A.conv, 0, 0, 0⟩ 300 10 _ _ (by decide)
 
-/-! ### the drain with a non-empty send queue (congestion window off)
+/-! ### the drain with a non-empty send queue (congestion control on or off)
 
 The induction is now over `WaitSnd = |snd_buf| + |snd_queue|`.  Without `Send`, `|snd_queue| + snd_nxt`
 is constant (`SysC.qn_run`), so `WaitSnd` falls exactly by the advance of `snd_una` (`SysC.wait_run`).
@@ -1176,15 +1176,16 @@ One stage (`SysC.stage_full`, `fullStage` ms) makes `snd_una` advance whenever s
 1. within one probe round A's `rmt_wnd` is non-zero (`C03_zero_window_probe_bound`, Props/C03.lean) and
    stays so: every datagram on its way to A carries a non-zero window (`SysC.FreshBa`, kept by every
    event while B's queue is not full — `SysC.freshBa_step`, `SysC.rmt_keep_step`);
-2. if nothing is outstanding, A's next full flush numbers a segment (`SysC.flush_admits`,
-   `SysC.adm_run`) — here the congestion window is assumed off (`nocwnd ≠ 0`, the setting of
-   `NoDelay(_, _, _, 1)`), so the effective window is `min(snd_wnd, rmt_wnd)`;
+2. if nothing is outstanding, A numbers a segment within two flushes (`SysC.flush_admits`,
+   `SysC.adm_run`): with congestion control on, `cwnd` may be 0 at the first flush (a fresh core, or
+   `cwnd` clamped to `rmt_wnd = 0` by an ACK), but every flush leaves `cwnd ≥ 1` (`SysC.flush_cwnd_pos`)
+   and with nothing outstanding no ACK changes it (`SysC.inA_cwnd`);
 3. the head of the send buffer is released (`C02_progress_step_every_head`).
 
 Run hypotheses, all checks on single states (`SysC.FullHyp`; Boolean form `SysC.runFullChk`): `Small`;
 `QB` — B's receive queue is not full and `rcv_wnd < 65536` in EVERY state (stronger than the reader
 condition `QOk` of `C02_drain_partial`: the window must exceed what arrives between two reads);
-`TmrOk Rmax` as before; `CfgA` — `nocwnd ≠ 0`, `0 < snd_wnd < 2^31`.  On the start state: `FreshBa`
+`TmrOk Rmax` as before; `CfgA` — `0 < snd_wnd < 2^31`.  On the start state: `FreshBa`
 (e.g. nothing on its way to A). -/
 
 open KcpVerif.Sys KcpVerif.SysC in
@@ -1196,10 +1197,10 @@ theorem C02_drain_stage_general {p : Par} {IA IB Rmax : Nat} {s : State} (hi : I
   stage_full hi hIA hR hw evs hns hr hnow
 
 open KcpVerif.Sys KcpVerif.SysC in
-/-- **`C02_drain`, any send queue, congestion window off**: two fresh endpoints, ANY history `pre` of
+/-- **`C02_drain`, any send queue, congestion control on or off**: two fresh endpoints, ANY history `pre` of
 writes, reads, events and network faults; from the state it leaves the writer stops, the links are fair
 and B's receive queue is never full.  Once the clock has advanced by `WaitSnd · (fullStage + 1)` ms —
-`fullStage = (IKCP_PROBE_LIMIT + 2·IA + 2·D + IB + 1) + (IA + 1) + (Rmax + IA + 2·D + IB)` — `WaitSnd = 0`
+`fullStage = (IKCP_PROBE_LIMIT + 2·IA + 2·D + IB + 1) + (2·IA + 1) + (Rmax + IA + 2·D + IB)` — `WaitSnd = 0`
 and the receiver has handed every numbered segment to the reader's queue. -/
 theorem C02_drain_general_partial (A B : Kcp) (D t0 : Nat) (ndA ndB : Bool) (hinit : ConsInit A B)
     (hpw : A.probe_wait = 0) (hIA : A.interval.toNat < 2 ^ 29) (pre : List NetEv)
